@@ -371,6 +371,47 @@ fn base_scenarios() -> Vec<(&'static str, Op)> {
             }
             Held::of(owned, (keep, l))
         }),
+        ("recvmsg with SCM_RIGHTS + control_messages (control buffers of CMSG_SPACE, CMSG_LEN and truncating sizes)", |e| {
+            // the descriptors recvmsg installs are handed to the caller through control_messages(): whatever the
+            // kernel installed and the iterator does not report can never be closed
+            use rusl::platform::{ControlMessageSend, IoSlice, IoSliceMut, MsgHdrBorrow};
+            let mut reported: Vec<i32> = Vec::new();
+            for (nfds, clen) in [(1usize, 24usize), (1, 20), (3, 32), (3, 28), (2, 20), (5, 28), (5, 31), (2, 64), (0, 24)] {
+                let mut sv = [0i32; 2];
+                if unsafe { libc::socketpair(libc::AF_UNIX, libc::SOCK_STREAM | libc::SOCK_CLOEXEC, 0, sv.as_mut_ptr()) } != 0 {
+                    continue;
+                }
+                let files: Vec<std::fs::File> = (0..nfds).filter_map(|_| std::fs::File::open(e.root.join("file.txt")).ok()).collect();
+                let fds: Vec<Fd> = files.iter().map(|f| Fd::try_new(std::os::fd::AsRawFd::as_raw_fd(f)).unwrap()).collect();
+                let data = [7u8; 3];
+                let io_out = [IoSlice::new(&data)];
+                let snd = MsgHdrBorrow::create_send(None, &io_out, if nfds > 0 { Some(ControlMessageSend::ScmRights(&fds)) } else { None });
+                let sent = rusl::network::sendmsg(Fd::try_new(sv[0]).unwrap(), &snd, 0);
+                if sent.is_ok() {
+                    let mut ctrl = vec![0u64; 8];
+                    let ctrl_bytes: &mut [u8] = unsafe { core::slice::from_raw_parts_mut(ctrl.as_mut_ptr().cast::<u8>(), clen) };
+                    let mut space = [0u8; 16];
+                    let mut io_in = [IoSliceMut::new(&mut space)];
+                    let mut hdr = MsgHdrBorrow::create_recv(&mut io_in, Some(ctrl_bytes));
+                    if rusl::network::recvmsg(Fd::try_new(sv[1]).unwrap(), &mut hdr, libc::MSG_CMSG_CLOEXEC).is_ok() {
+                        for m in hdr.control_messages() {
+                            match m {
+                                ControlMessageSend::ScmRights(got) => reported.extend(got.iter().map(|f| f.value())),
+                            }
+                            if reported.len() > 64 {
+                                break;
+                            }
+                        }
+                    }
+                }
+                drop(files);
+                unsafe {
+                    libc::close(sv[0]);
+                    libc::close(sv[1]);
+                }
+            }
+            Held::raw(reported)
+        }),
         ("TcpListener::bind + accept variants", |_e| {
             let mut l = ok_or_none!(TcpListener::bind(&SocketAddress::new(Ip::V4([127, 0, 0, 1]), 0)));
             let mut owned = vec![fd_of_tl(&l)];
